@@ -9,7 +9,7 @@ META = {
         "with size the 10-bit big-endian length (under the gate facts) and the raw frame is the concatenation of all read results once, "
         "in read order (byte-concatenation domain); D3 the read primitive's contract by interval reasoning over its path conditions; "
         "D4 the CRC gate of the static parser (DNF); D5 payload slice message[3:-3]; D6 the stream has a single consumer and is never "
-        "repositioned; D7 what read() can return; plus the shared CRC transfer function (C08-D1) and identity bits (C15-D1). "
+        "repositioned; D7 what read() can return; plus the shared CRC transfer function (C08-D1), identity bits (C15-D1) and the verbatim payload store (C07-D3). "
         "By induction over loop iterations these imply the statement; the induction itself is an argument, not mechanised."
     ),
     "trusted": ["CPython ast parser", "sa/symeval.py, sa/domains.py", "oracle/frames.json", "assumption: the stream's read(n) returns at most n bytes, in order"],
@@ -27,5 +27,8 @@ def run(eng, ctx):
     SH.read_returns(eng, ctx, "C01.D7", m)
     SH.crc_transfer(eng, ctx, "C08.D1")
     SH.identity_bits(eng, ctx, "C15.D1")
+    from .C07 import payload_verbatim
+
+    payload_verbatim(eng, ctx, "C07.D3")  # "the parsed message's payload is exactly the one carried by that slice"
     ctx.instance("read-primitive call sites", len(eng.res.callers_of(eng.read_primitive)), 7)
     ctx.assume("the underlying stream's read(n) returns at most n bytes, in stream order")
